@@ -155,6 +155,8 @@ def run(ctx):
                 dst = os.path.join(b2, "fc", "gen_" + row["file"][:-3] + ".go")
                 if os.path.exists(src):
                     shutil.copy(src, dst)
+                elif os.path.exists(dst):
+                    os.remove(dst)            # generation 1 did not write this file (e.g. under another name): generation 2 is built without it
                 srcs.append({"group": "fc", "file": row["file"], "hash": sha(dst) if os.path.exists(dst) else "missing"})
         fc2 = os.path.join(ctx.mkdir("bin"), "fc_gen2")
         rc, so, se = core.sh(["go", "build", "-o", fc2, "."], cwd=os.path.join(b2, "fc"), timeout=600)
